@@ -2,6 +2,7 @@ package main
 
 import (
 	"fmt"
+	"math"
 
 	"gonum.org/v1/gonum/blas"
 	"gonum.org/v1/gonum/lapack"
@@ -460,7 +461,29 @@ func (h *H) checkLarfg(id string, seedIdx, n int) {
 	defer cs.done()
 	alpha := rng.Sym()
 	x := randVec(rng, max(n-1, 0))
-	switch seedIdx % 6 {
+	switch seedIdx % 9 {
+	case 6: // subnormal: |beta| < safmin and the norm of x itself is inaccurate before rescaling
+		alpha = math.Ldexp(alpha, subExp)
+		for i := range x {
+			x[i] = math.Ldexp(x[i], subExp)
+		}
+	case 7: // near overflow
+		alpha = math.Ldexp(alpha, hugeExp)
+		for i := range x {
+			x[i] = math.Ldexp(x[i], hugeExp)
+		}
+	case 8: // mixed: subnormal x below a tiny normal alpha, or the other way round
+		if seedIdx%2 == 0 {
+			alpha = math.Ldexp(alpha, -1000)
+			for i := range x {
+				x[i] = math.Ldexp(x[i], subExp)
+			}
+		} else {
+			alpha = math.Ldexp(alpha, subExp)
+			for i := range x {
+				x[i] = math.Ldexp(x[i], -1010)
+			}
+		}
 	case 1: // x = 0: H = I
 		for i := range x {
 			x[i] = 0
@@ -512,7 +535,7 @@ func (h *H) checkLarfg(id string, seedIdx, n int) {
 		want := ref.New(n, 1)
 		want.D[0] = beta
 		sc := in.NormFro()
-		cs.band("Dlarfg", "", "larfg-annihilates", ref.MaxDiff(out, want), float64(n+4)*eps*sc, func() string { return what })
+		cs.band("Dlarfg", "", "larfg-annihilates", ref.MaxDiff(out, want), float64(n+4)*(eps*sc+subFloor), func() string { return what })
 		if !(tau == 0 || (tau >= 1-8*eps && tau <= 2+8*eps)) {
 			cs.fail("Dlarfg", "", "tau-out-of-range", "%s: tau=%v not 0 or in [1,2]", what, tau)
 		}
@@ -576,7 +599,7 @@ func (h *H) planReflectors(add addFn) {
 			}
 		}
 		for _, n := range []int{0, 1, 2, 3, 4, 5, 8, 17, 33, 64, 100} {
-			for t := 0; t < 6; t++ {
+			for t := 0; t < 9; t++ {
 				idx++
 				i := idx
 				n := n
